@@ -258,6 +258,40 @@ def install():
         setattr(Validator, nm, mk(fn, nm, is_static))
 
 
+def series_sha(i):
+    """digest of every series of a result object (all three nutrient parts, plain arrays): they are compared for identity"""
+    import hashlib
+    hs = hashlib.sha256()
+    for name in sorted(vars(i)):
+        o = getattr(i, name)
+        if hasattr(o, "kcals") and hasattr(o, "fat") and hasattr(o, "protein"):
+            for part in (o.kcals, o.fat, o.protein):
+                hs.update(name.encode())
+                hs.update(np.ascontiguousarray(np.asarray(part, dtype=float)).tobytes())
+        elif isinstance(o, np.ndarray) and o.dtype.kind in "fi":
+            hs.update(name.encode())
+            hs.update(np.ascontiguousarray(o.astype(float)).tobytes())
+    return hs.hexdigest()
+
+
+REPORTED = ["stored_food", "outdoor_crops", "seaweed", "cell_sugar", "scp", "greenhouse", "fish", "meat", "milk", "immediate_outdoor_crops",
+            "new_stored_outdoor_crops"]
+
+
+def reported_sha(i):
+    """digest of what a result reports about people's consumption (per-food percent and kcals-equivalent series, monthly total);
+    the feed / biofuel sums of the feed round are deliberately clipped by the runner afterwards and are not part of it"""
+    import hashlib
+    hs = hashlib.sha256()
+    for name in [n for n in REPORTED] + [n + "_kcals_equivalent" for n in REPORTED]:
+        o = getattr(i, name, None)
+        if o is not None and hasattr(o, "kcals"):
+            hs.update(name.encode())
+            hs.update(np.ascontiguousarray(np.asarray(o.kcals, dtype=float)).tobytes())
+    hs.update(np.ascontiguousarray(np.asarray(i.kcals_fed, dtype=float)).tobytes())
+    return hs.hexdigest()
+
+
 def interp_obs(i, rnd, title):
     def k(name):
         o = getattr(i, name, None)
@@ -279,19 +313,8 @@ def interp_obs(i, rnd, title):
         except BaseException:  # not a clean table (e.g. repeated header lines): reported by C04 as CsvEqualsResult
             csv = None
         # (the file is left in place: a later run with the same title must overwrite it, not inherit from it)
-    # every other series of the result (fat and protein parts, plain arrays): a digest is enough, they are compared for identity
-    import hashlib
-    hs = hashlib.sha256()
-    for name in sorted(vars(i)):
-        o = getattr(i, name)
-        if hasattr(o, "kcals") and hasattr(o, "fat") and hasattr(o, "protein"):
-            for part in (o.kcals, o.fat, o.protein):
-                hs.update(name.encode())
-                hs.update(np.ascontiguousarray(np.asarray(part, dtype=float)).tobytes())
-        elif isinstance(o, np.ndarray) and o.dtype.kind in "fi":
-            hs.update(name.encode())
-            hs.update(np.ascontiguousarray(o.astype(float)).tobytes())
-    return dict(round=rnd, pf=float(i.percent_people_fed), kcals_fed=fl(i.kcals_fed), percent=pf, kcals_eq=keq, csv=csv, all_series_sha=hs.hexdigest(),
+    sha = series_sha(i)
+    return dict(round=rnd, pf=float(i.percent_people_fed), kcals_fed=fl(i.kcals_fed), percent=pf, kcals_eq=keq, csv=csv, all_series_sha=sha, reported_sha=reported_sha(i),
                 feed_sum_keq=k("feed_sum_kcals_equivalent"), bio_sum_keq=k("biofuels_sum_kcals_equivalent"),
                 feed_sum=k("feed_sum"), bio_sum=k("biofuels_sum") if hasattr(i, "biofuels_sum") else None)
 
@@ -401,6 +424,8 @@ def fill_rec(rec, cap, txt, job):
         try:
             ob["pf_at_interpretation"] = ob["pf"]
             ob["pf"] = float(o.percent_people_fed)
+            # ... and whether the result object still holds the series it held when it was interpreted
+            ob["series_unchanged_afterwards"] = (reported_sha(o) == ob["reported_sha"])
         except BaseException:
             pass
     rec["validators"] = cap["validators"]
